@@ -299,7 +299,7 @@ def body(ctx):
 
 
 def run(ctx):
-    hyp_run(ctx, 'c17.case', CASE, body(ctx), ctx.pick(40, 800))
+    hyp_run(ctx, 'c17.case', CASE, body(ctx), ctx.pick(40, 2500))
 
 
 def replay(ctx, check, case):
